@@ -548,6 +548,9 @@ def oracle_c11(run, ops, impl):
         res, new = parse_votes_obs(ob)
         if a[1] == "delegate" and res == "ok":
             deleg[a[2]] = a[3]
+        if a[1] == "endperiod" and new["v"]:
+            # the tally at the end of a vote period consumes every revealed vote: none may be counted again in a later period
+            out.append(V("C11:vote-survives-period-end", {"line": i + 1, "op": op, "votes_left": sorted(new["v"])[:3]}))
         if a[1] == "setperiod":
             vp = int(a[2])
         elif a[1] == "setbonded":
